@@ -7,6 +7,9 @@ PLAN = dict(
     kani=[dict(
         crate="tracing-core", tls_shim=True, once_cell_stub=True,
         modules=[dict(name="__verif_c10", attach="lib", files=["../common/core_prelude.rs", "../common/core_stub.rs", "values.kani.rs"])],
+    ), dict(
+        crate="tracing", tls_shim_crates=["tracing-core"], once_cell_stub=True, tag="macros", jobs=2, timeout_s=3000,
+        modules=[dict(name="__verif_c10m", attach="lib", files=["macro_forms.kani.rs"])],
     )],
     manifest=dict(technique='full-domain routing contracts for every Value impl and a bounded ValueSet::record order check on the real tracing-core (Kani)',
         text="Partial: the typed-routing and ordering clauses of the statement are decided for the data layer (tracing-core); the macro layer's evaluate-once clause is not decided by this technique within the time/memory budget and is listed as not covered.",
